@@ -445,8 +445,8 @@ int main(int argc, char **argv)
     std::vector<Root> roots = {
         {"fresh", {}, 2, 3},
         {"seg1", H({"set_sieve_size(1)"}), 2, 4},
-        {"keep+seg1", H({"set_clear(false)", "set_sieve_size(1)"}), 3, 5},
-        {"keep+seg1+grown100", H({"set_clear(false)", "set_sieve_size(1)", "gen(100)"}), 2, 4},
+        {"keep+seg1", H({"set_clear(false)", "set_sieve_size(1)"}), 2, 5},
+        {"keep+seg1+grown100", H({"set_clear(false)", "set_sieve_size(1)", "gen(100)"}), 2, 3},
         {"keep+seg1+grown16512", H({"set_clear(false)", "set_sieve_size(1)", "gen(16512)"}), 2, 3},
         {"seg1+iter15", H({"set_sieve_size(1)", "it=iterator(0)", "it.next*15"}), 2, 3}, // a live iterator whose index is beyond the initial cache
     };
@@ -460,10 +460,10 @@ int main(int argc, char **argv)
 
     auto quiet_worker = [&]() {
         // sanitizer reports of crashing workers would flood the log; the parent classifies crashes itself
-        static pid_t done_for = 0;
-        if (replaying() || done_for == getpid())
+        static bool quieted = false; // inherited by probe children, whose stderr is captured instead
+        if (replaying() || quieted)
             return;
-        done_for = getpid();
+        quieted = true;
         int dn = open("/dev/null", O_WRONLY);
         if (dn >= 0) {
             dup2(dn, 2);
@@ -585,8 +585,10 @@ int main(int argc, char **argv)
         };
         double t_layer = now();
         run_cases(cs);
-        if (replaying())
+        if (replaying()) {
+            completed[r] = d; // nothing was executed; indices of deeper layers do not depend on earlier results
             return;
+        }
         printf("LAYER %s indices=%lld crashed_or_violated=%zu wall=%.1fs\n", cs.name.c_str(), n, cs.bad.size(), now() - t_layer);
         for (long long b : cs.bad) {
             dead[r][d].insert(b);
@@ -604,7 +606,7 @@ int main(int argc, char **argv)
     };
     // breadth first over the roots; the deepest layers (deadline-capped in the thorough tier) run last, after the side checks
     for (size_t r = 0; r < roots.size(); r++)
-        run_root(r, thorough ? std::min(roots[r].thorough_depth, 4) : roots[r].quick_depth);
+        run_root(r, thorough ? std::min(roots[r].thorough_depth, 3) : roots[r].quick_depth);
 
     // ---------------------------------------------------------------- default segment size (32K => 524288 numbers per segment)
     {
@@ -707,10 +709,13 @@ int main(int argc, char **argv)
             memo[keep] = sig;
             return sig;
         };
+        double t_side = now();
         if (!past_deadline() || replaying())
             run_cases(cs);
         else
             R.exhaustive = false;
+        if (!replaying())
+            printf("SIDE default-size cases=%lld wall=%.1fs\n", cs.n, now() - t_side);
     }
 
     // ---------------------------------------------------------------- reset == fresh process (all histories of depth <= 2 from every root)
@@ -722,7 +727,7 @@ int main(int argc, char **argv)
         };
         std::vector<Hist> hs;
         for (auto &root : roots)
-            for (int d = 1; d <= (root.h.size() <= 2 ? 2 : 1); d++) {
+            for (int d = 1; d <= ((thorough ? root.h.size() <= 2 : root.name == "keep+seg1") ? 2 : 1); d++) {
                 long long n = d == 1 ? NOPS : NOPS * NOPS;
                 for (long long i = 0; i < n; i++) {
                     Hist f = root.h;
@@ -786,19 +791,23 @@ int main(int argc, char **argv)
                 c.violation("reset-not-equivalent-to-fresh-process", "[" + hstr(hs[i]) + "]: fresh process trace " + fresh.substr(0, 300) + " vs after reset " + here.substr(0, 300));
         };
         // a history that crashes in-process after being clean in the fresh process is a state-dependent crash: default signature
+        double t_side = now();
         if (!past_deadline() || replaying())
             run_cases(cs);
         else
             R.exhaustive = false;
+        if (!replaying())
+            printf("SIDE fresh-vs-reset cases=%lld wall=%.1fs\n", cs.n, now() - t_side);
     }
 
     if (thorough)
-        for (size_t r = 0; r < roots.size(); r++)
-            if (roots[r].thorough_depth > 4) {
-                if (replaying())
-                    completed[r] = roots[r].thorough_depth - 1; // layers are skipped in replay mode; indices do not depend on them
-                run_root(r, roots[r].thorough_depth);
-            }
+        for (int d = 4; d <= 5; d++) // deepest layers last: deadline-capped
+            for (size_t r = 0; r < roots.size(); r++)
+                if (roots[r].thorough_depth >= d) {
+                    if (replaying())
+                        completed[r] = d - 1; // layers are skipped in replay mode; indices do not depend on them
+                    run_layer(r, d);
+                }
     std::string bounds;
     for (size_t r = 0; r < roots.size(); r++)
         bounds += (r ? "; " : "") + roots[r].name + ": depth<=" + std::to_string(completed[r]) + (stopped[r] ? " (+ partial depth " + std::to_string(completed[r] + 1) + ")" : "");
